@@ -6,6 +6,12 @@ recursive reference matcher written from the statement.
 Part B (interpreter level): for every depth<=1 pattern a program `match E(p=<literal>)` + marker, fed
 with every payload (plus derived payloads, extra parameters, wrong event names) through
 `run_to_completion`; plus action / flow instance references.
+Part W: the same expected values written in every documented form (literal, $variable, "{$n}" interpolation with values
+shorter / as long as / longer than the placeholder, "{{..}}", "$word" text) in lists / dicts / sets and one level deeper.
+Part V: every depth<=1 pattern reaching the statement through a variable of another provenance (copy of a variable, member of
+a dict / list variable, global, read before, inside a written list / dict), also after events that do not match.
+Part T: "{$t}" for texts with quotes / backslashes / braces taken from an event.  Part R: parameters written on a flow
+REFERENCE event (`$ref.Finished(return_value=..)`).  Part N: 1..10^4 unmentioned elements / parameters.
 """
 from __future__ import annotations
 
@@ -737,6 +743,355 @@ def part_priority(_):
     return res
 
 
+# ----------------------------------------------------------------------------- part W: written forms of a pattern
+# The SAME expected value can be written in several documented ways: a literal, a `$variable`, a string with an
+# interpolated expression ("{$n}" - the variable values are shorter than / as long as / longer than the placeholder),
+# a string with escaped braces ("{{id}}" is the text {id}), a string that contains a `$word`.  The statement denotes
+# the resolved value, whichever way its items are written, so the decision must be the reference's for that value.
+FORM_VARS = [("n1", '"a"'), ("n5", '"abcde"'), ("n12", '"abcdefghijkl"'), ("i2", "2"), ("sb", '"b"')]
+LEAF_FORMS = [
+    ("lit-str", '"a"', ("s", "a")),
+    ("lit-int", "1", ("s", 1)),
+    ("var-str", "$sb", ("s", "b")),
+    ("var-int", "$i2", ("s", 2)),
+    ("interp-shorter", '"{$n1}"', ("s", "a")),
+    ("interp-same-length", '"{$n5}"', ("s", "abcde")),
+    ("interp-longer", '"{$n12}"', ("s", "abcdefghijkl")),
+    ("interp-int", '"{$i2}"', ("s", "2")),
+    ("interp-embedded", '"x{$n1}y"', ("s", "xay")),
+    ("escaped-braces", '"{{id}}"', ("s", "{id}")),
+    ("dollar-text", '"$USD"', ("s", "$USD")),
+    ("regex", 'regex("a")', ("rx", "a")),
+]
+_FORM = {n: (txt, val) for n, txt, val in LEAF_FORMS}
+
+
+def written_patterns(tier):
+    """every leaf form alone, every list / dict of <= 2 and set of 2 leaf forms (ordered pairs), and the pairs one level
+    deeper (`[{"k1": X}, Y]`, `{"k1": [X], "k2": Y}`); a tree of ("w", <form name>) leaves"""
+    leaves = [("w", n) for n, _t, _v in LEAF_FORMS]
+    out = list(leaves)
+    for c in containers(leaves, set_items=leaves):
+        if c[0] == "set" and len({repr(w_resolve(x)) for x in c[1]}) != len(c[1]):
+            continue  # two ways of writing the same member: the set has one member
+        out.append(c)
+    for a, b in itertools.product(leaves, repeat=2):
+        out.append(("list", (("dict", (("k1", a),)), b)))
+        out.append(("dict", (("k1", ("list", (a,))), ("k2", b))))
+    return out
+
+
+def w_resolve(t):
+    if t[0] == "w":
+        return _FORM[t[1]][1]
+    if t[0] == "dict":
+        return ("dict", tuple((k, w_resolve(x)) for k, x in t[1]))
+    return (t[0], tuple(w_resolve(x) for x in t[1]))
+
+
+def w_colang(t):
+    if t[0] == "w":
+        return _FORM[t[1]][0]
+    if t[0] == "list":
+        return "[" + ", ".join(w_colang(x) for x in t[1]) + "]"
+    if t[0] == "set":
+        return "{" + ", ".join(w_colang(x) for x in t[1]) + "}"
+    return "{" + ", ".join(f'"{kk}": {w_colang(v)}' for kk, v in t[1]) + "}"
+
+
+def w_forms(t, acc=None):
+    acc = [] if acc is None else acc
+    if t[0] == "w":
+        acc.append(t[1])
+    elif t[0] == "dict":
+        for _, x in t[1]:
+            w_forms(x, acc)
+    else:
+        for x in t[1]:
+            w_forms(x, acc)
+    return acc
+
+
+def w_program(t):
+    return ("flow main\n" + "".join(f"  ${n} = {lit}\n" for n, lit in FORM_VARS)
+            + f"  match E(p={w_colang(t)})\n  send Marker()\n  match Never()\n")
+
+
+def _feed_cases(base, n0, p, cases, res, sig_of, what_of, info, noise=None):
+    """feed every (payload, event name, extra parameters) to a copy of the waiting state; compare with the reference"""
+    for v, evname, extra in cases:
+        st = v2x.copy_state(base)
+        ev = {"type": evname, "p": to_py(v, False)}
+        if extra:
+            ev["q"] = [1, 2]
+            ev["r"] = "unmentioned"
+        try:
+            pre_adv = False
+            if noise is not None:
+                # the statement's expressions are evaluated for every candidate event: events that do not match come first
+                for nv in noise:
+                    v2x.step(st, {"type": "E", "p": to_py(nv, False)}, [], n0)
+                    pre_adv = pre_adv or any(e["type"] == "Marker" for e in st.outgoing_events)
+                    res["steps"] += 1
+            v2x.step(st, ev, [], n0)
+            got = pre_adv or any(e["type"] == "Marker" for e in st.outgoing_events)
+            err = None
+        except Exception as e:  # noqa
+            got, err = None, repr(e)
+        res["steps"] += 1
+        exp = ref_match(p, v) and evname == "E"
+        if noise is not None and any(ref_match(p, nv) for nv in noise):
+            exp = True
+        if exp:
+            res["markers"] += 1
+        if got != exp and len(res["violations"]) < 20:
+            res["violations"].append(
+                (sig_of(v, evname, got), what_of(v, evname, extra, exp, got, err),
+                 dict(info, event={"type": evname, "p": v, "extra": extra}, noise=list(noise) if noise is not None else None)))
+
+
+def part_w_task(t):
+    res = {"programs": 1, "steps": 0, "markers": 0, "violations": [], "derived": 0}
+    p = w_resolve(t)
+    src = w_program(t)
+    forms = w_forms(t)
+    sig = "written-form:" + t[0].replace("w", "scalar") + ":" + "+".join(sorted(set(forms)))
+    info = {"engine": "C04-B", "source": src}
+    try:
+        base = v2x.init_state(src)
+        v2x.step(base, v2x.resolve_event(base, ("start_main",)), [], v2x.UIDS.n)
+    except Exception as e:
+        res["violations"].append((sig + ":program-raised", f"`match E(p={w_colang(t)})`: {e!r}", dict(info, event={"type": "E"})))
+        return res
+    n0 = v2x.UIDS.n
+    der = derived(p)
+    res["derived"] = len(der)
+    vals = values(1) if size(p) <= 3 else []
+    cases = [(v, "E", False) for v in vals] + [(v, "E", False) for v in der] + [(v, "E", True) for v in der] + [(v, "E2", False) for v in der[:1]]
+    _feed_cases(base, n0, p, cases, res,
+                lambda v, evname, got: (sig + (":no-advance" if not got else ":advance")) if evname == "E" else "wrong-event-name-matched",
+                lambda v, evname, extra, exp, got, err: (
+                    f"`match E(p={w_colang(t)})` (the value {to_colang(p)}; " + ", ".join(f"${n} = {lit}" for n, lit in FORM_VARS)
+                    + f") on {evname}(p={to_colang(v)}{', q=.., r=..' if extra else ''}): expected {'advance' if exp else 'no advance'}, "
+                    + (f"raised {err}" if err else f"advanced={got}")), info)
+    return res
+
+
+# ----------------------------------------------------------------------------- part V: where the pattern variable got its value from
+PROVENANCES = ["copied-variable", "member-of-dict-variable", "member-of-nested-dict-variable", "item-of-list-variable", "member-written-in-the-statement",
+               "copied-twice", "global-variable", "read-before-the-match", "inside-a-list-pattern", "inside-a-dict-pattern"]
+
+
+def provenance_program(p, how):
+    """(source, the pattern the statement denotes, payload wrapper for the patterns that contain the variable)"""
+    src, den = _provenance_program(p, how)
+    wrap = None
+    if how == "inside-a-list-pattern":
+        wrap = lambda v: ("list", (("s", "a"), v))  # noqa: E731
+    if how == "inside-a-dict-pattern":
+        wrap = lambda v: ("dict", (("k1", v), ("k2", ("s", 1))))  # noqa: E731
+    return src, den, wrap
+
+
+def _provenance_program(p, how):
+    lit = to_colang(p)
+    tail = "  send Marker()\n  match Never()\n"
+    if how == "copied-variable":
+        return f"flow main\n  $src = {lit}\n  $pat = $src\n  match E(p=$pat)\n" + tail, p
+    if how == "copied-twice":
+        return f"flow main\n  $src = {lit}\n  $mid = $src\n  $pat = $mid\n  match E(p=$pat)\n" + tail, p
+    if how == "member-of-dict-variable":
+        return f'flow main\n  $cfg = {{"m": {lit}, "name": "x"}}\n  $pat = $cfg.m\n  match E(p=$pat)\n' + tail, p
+    if how == "member-of-nested-dict-variable":
+        return f'flow main\n  $cfg = {{"inner": {{"m": {lit}}}, "name": "x"}}\n  $pat = $cfg.inner.m\n  match E(p=$pat)\n' + tail, p
+    if how == "item-of-list-variable":
+        return f"flow main\n  $cfg = [0, {lit}]\n  $pat = $cfg[1]\n  match E(p=$pat)\n" + tail, p
+    if how == "member-written-in-the-statement":
+        return f'flow main\n  $cfg = {{"m": {lit}, "name": "x"}}\n  match E(p=$cfg.m)\n' + tail, p
+    if how == "global-variable":
+        return f"flow main\n  global $pat\n  $src = {lit}\n  $pat = $src\n  match E(p=$pat)\n" + tail, p
+    if how == "read-before-the-match":
+        return f"flow main\n  $src = {lit}\n  $pat = $src\n  send Probe(v=$pat)\n  $n = len([$pat])\n  match E(p=$pat)\n" + tail, p
+    if how == "inside-a-list-pattern":
+        return f'flow main\n  $src = {lit}\n  $pat = $src\n  match E(p=["a", $pat])\n' + tail, ("list", (("s", "a"), p))
+    if how == "inside-a-dict-pattern":
+        return f'flow main\n  $src = {lit}\n  $pat = $src\n  match E(p={{"k1": $pat, "k2": 1}})\n' + tail, ("dict", (("k1", p), ("k2", ("s", 1))))
+    raise ValueError(how)
+
+
+def part_v_task(args):
+    p0, how = args
+    res = {"programs": 1, "steps": 0, "markers": 0, "violations": [], "derived": 0}
+    src, p, wrap = provenance_program(p0, how)
+    kind = p0[0] if p0[0] not in ("s", "rx") else "scalar"
+    sig = f"pattern-variable:{how}:{kind}"
+    info = {"engine": "C04-B", "source": src}
+    try:
+        base = v2x.init_state(src)
+        v2x.step(base, v2x.resolve_event(base, ("start_main",)), [], v2x.UIDS.n)
+        if any(e["type"] == "Marker" for e in base.outgoing_events):
+            raise RuntimeError("advanced without an event")
+    except Exception as e:
+        res["violations"].append((sig + ":program-raised", f"{how}, pattern {to_colang(p0)}: {e!r}", dict(info, event={"type": "E"})))
+        return res
+    n0 = v2x.UIDS.n
+    der = derived(p)
+    res["derived"] = len(der)
+    vals = [v for v in values(1) if v[0] == p[0]] if size(p) <= 3 else []
+    cases = [(v, "E", False) for v in vals] + [(v, "E", False) for v in der] + [(v, "E", True) for v in der[:1]]
+    if wrap is not None:
+        # the variable is one member of the written pattern: every payload for the variable's pattern, in that place
+        inner = [v for v in values(1) if v[0] == p0[0]] + derived(p0)
+        cases += [(wrap(v), "E", False) for v in inner]
+        res["derived"] += len(inner)
+
+    def what(v, evname, extra, exp, got, err, tag=""):
+        return (f"{how}: the statement denotes `match E(p={to_colang(p)})`{tag}; on {evname}(p={to_colang(v)}{', q=.., r=..' if extra else ''}) expected "
+                f"{'advance' if exp else 'no advance'}, " + (f"raised {err}" if err else f"advanced={got}"))
+
+    _feed_cases(base, n0, p, cases, res, lambda v, evname, got: sig + (":no-advance" if not got else ":advance"), what, info)
+    # the same decisions after two candidate events that do not match (an empty container of the same kind, another scalar)
+    noise = [v for v in (("s", "zz"), (p[0], ()) if p[0] in ("list", "dict") else ("s", 9)) if not ref_match(p, v)]
+    _feed_cases(base, n0, p, [(v, "E", False) for v in der], res,
+                lambda v, evname, got: sig + ":after-events-that-do-not-match" + (":no-advance" if not got else ":advance"),
+                lambda v, evname, extra, exp, got, err: what(v, evname, extra, exp, got, err, f" after the events {[to_colang(x) for x in noise]}"), info, noise=noise)
+    return res
+
+
+# ----------------------------------------------------------------------------- part T: interpolated text
+# `match Ev(text="{$t}")` denotes the string value of $t, whatever characters it has.  The text enters by an event
+# (no literal has to be written for it): `match First() as $e` / `$t = $e.text`.
+TEXTS = [("plain", "plain text"), ("single-quote", "it's"), ("double-quote", 'say "hi" now'), ("tab", "tab\there"), ("newline", "two\nlines"),
+         ("braces", "a {x} b"), ("dollar-word", "pay $USD 5"), ("backslash", "C:\\new"), ("backslash-other", "a\\d+"), ("trailing-backslash", "a\\"),
+         ("adjacent-double-quotes", 'say ""hi""'), ("adjacent-single-quotes", "''"), ("leading-quote", '"x'), ("hash", "# no comment")]
+TEXT_PATTERNS = [("scalar", 'text="{$t}"', lambda t: t), ("variable", "text=$t", lambda t: t), ("embedded", 'text="<{$t}>"', lambda t: "<" + t + ">"),
+                 ("in-list", 'text=["{$t}", 1]', lambda t: [t, 1]), ("in-dict", 'text={"k1": "{$t}"}', lambda t: {"k1": t})]
+
+
+def part_text(_):
+    import warnings
+    warnings.filterwarnings("ignore", category=SyntaxWarning)  # python's remark about `\d` in an expression the evaluator built
+    res = {"interpolated_text_cases": 0, "interpolated_text_advances": 0, "violations": []}
+    for pname, pat, build in TEXT_PATTERNS:
+        src = f"flow main\n  match First() as $e\n  $t = $e.text\n  send Captured()\n  match Ev({pat})\n  send Marker()\n  match Never()\n"
+        for tname, text in TEXTS:
+            for other_name, other in [(tname, text)] + [(n, t) for n, t in TEXTS[:3] if n != tname][:1]:
+                exp = other == text
+                info = {"engine": "C04-text", "source": src, "first": {"type": "First", "text": text}}
+                ev = {"type": "Ev", "text": build(other)}
+                try:
+                    st = v2x.init_state(src)
+                    v2x.step(st, v2x.resolve_event(st, ("start_main",)), [], v2x.UIDS.n)
+                    v2x.step(st, {"type": "First", "text": text}, [], v2x.UIDS.n)
+                    if not any(e["type"] == "Captured" for e in st.outgoing_events):
+                        res["violations"].append((f"harness:interpolated-text:{pname}:capture", "First not matched", dict(info, event=ev)))
+                        continue
+                    v2x.step(st, ev, [], v2x.UIDS.n)
+                    got = any(e["type"] == "Marker" for e in st.outgoing_events)
+                except Exception as e:
+                    res["violations"].append((f"interpolated-text:{tname}:raised", f"`match Ev({pat})`, $t = {text!r}: {e!r}", dict(info, event=ev)))
+                    continue
+                res["interpolated_text_cases"] += 1
+                res["interpolated_text_advances"] += bool(exp)
+                if got != exp:
+                    res["violations"].append((f"interpolated-text:{tname}:{'equal-text-not-matched' if exp else 'other-text-matched'}",
+                                              f"$t = {text!r} (taken from an event), `match Ev({pat})` fed Ev(text={build(other)!r}): expected advance={exp}, got {got}",
+                                              dict(info, event=ev)))
+    seen, uniq = set(), []
+    for v in res["violations"]:
+        if v[0] not in seen:
+            seen.add(v[0])
+            uniq.append(v)
+    res["violations"] = uniq
+    return res
+
+
+# ----------------------------------------------------------------------------- part R: parameters written on a flow REFERENCE event
+def part_flow_ref_events(_):
+    """`start f .. as $ref` / `match $ref.Finished(return_value=<x>)`, `match $ref.Started(p=<x>)`: the parameter is written in the
+    statement, so the event of the referenced instance advances the statement only with a matching value"""
+    res = {"flow_reference_event_cases": 0, "violations": []}
+    cases = []
+    for rv in (6, "six", [1, 2], {"k": 1}):
+        lit = repr(rv).replace("'", '"')
+        stmts = [(f"$ref.Finished(return_value={lit})", True), ("$ref.Finished(return_value=5)", False), ('$ref.Finished(return_value="no")', False),
+                 ("$ref.Finished()", True), (f"$ref.Finished(return_value={lit}, p=1)", True), (f"$ref.Finished(return_value={lit}, p=2)", False),
+                 ("$ref.Finished(p=1)", True), ("$ref.Finished(p=2)", False)]
+        if isinstance(rv, list):
+            stmts += [("$ref.Finished(return_value=[2])", True), ("$ref.Finished(return_value=[2, 1])", False), ("$ref.Finished(return_value=[1, 2, 3])", False)]
+        if isinstance(rv, dict):
+            stmts += [('$ref.Finished(return_value={"k": 2})', False), ('$ref.Finished(return_value={"j": 1})', False), ("$ref.Finished(return_value={})", True)]
+        if isinstance(rv, str):
+            stmts += [('$ref.Finished(return_value=regex("^s"))', True), ('$ref.Finished(return_value=regex("^x"))', False)]
+        for stmt, exp in stmts:
+            src = (f"flow f $p\n  match Go()\n  return {lit}\n\nflow main\n  start f 1 as $ref\n  match {stmt}\n  send Marker()\n  match Never()\n")
+            cases.append((src, stmt, exp, f"`flow f` (started as $ref with p=1) returns {lit}"))
+    for stmt, exp in (("$ref.Finished()", True), ("$ref.Finished(return_value=5)", False)):
+        src = f"flow f $p\n  match Go()\n\nflow main\n  start f 1 as $ref\n  match {stmt}\n  send Marker()\n  match Never()\n"
+        cases.append((src, stmt, exp, "`flow f` (started as $ref) ends without `return`"))
+    for src, stmt, exp, what in cases:
+        try:
+            st = v2x.init_state(src)
+            v2x.step(st, v2x.resolve_event(st, ("start_main",)), [], v2x.UIDS.n)
+            early = any(e["type"] == "Marker" for e in st.outgoing_events)
+            v2x.step(st, {"type": "Go"}, [], v2x.UIDS.n)
+            got = early or any(e["type"] == "Marker" for e in st.outgoing_events)
+        except Exception as e:
+            res["violations"].append(("flow-reference-event:raised", f"`match {stmt}` ({what}): {e!r}", {"engine": "C04-flowevent", "source": src}))
+            continue
+        res["flow_reference_event_cases"] += 1
+        if got != exp:
+            name = "return_value" if "return_value" in stmt else "flow-parameter"
+            kind = (f"written-{name}-ignored" if not exp else f"matching-event-missed:{name}")
+            res["violations"].append((f"flow-reference-event:{kind}", f"{what}: `match {stmt}` expected advance={exp}, got {got}", {"engine": "C04-flowevent", "source": src}))
+    seen, uniq = set(), []
+    for v in res["violations"]:
+        if v[0] not in seen:
+            seen.add(v[0])
+            uniq.append(v)
+    res["violations"] = uniq
+    return res
+
+
+# ----------------------------------------------------------------------------- part N: how MANY unmentioned elements
+LADDER = [1, 10, 100, 1000, 10000]
+MANY_SHAPES = {
+    "list-items": ('items=["a"]', lambda n: {"items": ["a"] + ["x"] * n}, lambda n: {"items": ["b"] + ["x"] * n}),
+    "list-items-before": ('items=["a"]', lambda n: {"items": ["x"] * n + ["a"]}, lambda n: {"items": ["x"] * n + ["b"]}),
+    "dict-entries": ('data={"a": 1}', lambda n: {"data": dict({"a": 1}, **{f"k{i}": i for i in range(n)})}, lambda n: {"data": dict({"a": 2}, **{f"k{i}": i for i in range(n)})}),
+    "set-members": ('tags={"a"}', lambda n: {"tags": {"a"} | {f"x{i}" for i in range(n)}}, lambda n: {"tags": {"b"} | {f"x{i}" for i in range(n)}}),
+    "event-parameters": ("a=1", lambda n: dict({"a": 1}, **{f"k{i}": i for i in range(n)}), lambda n: dict({"a": 2}, **{f"k{i}": i for i in range(n)})),
+}
+
+
+def part_many(_):
+    """payloads derived from the pattern by adding N elements / parameters the statement does not mention, N on a ladder up to 10^4"""
+    res = {"many_unmentioned_cases": 0, "violations": []}
+    for name, (pat, good, bad) in MANY_SHAPES.items():
+        src = f"flow main\n  match Ev({pat})\n  send Marker()\n  match Never()\n"
+        base = v2x.init_state(src)
+        v2x.step(base, v2x.resolve_event(base, ("start_main",)), [], v2x.UIDS.n)
+        n0 = v2x.UIDS.n
+        for n in LADDER:
+            for build, exp in ((good, True), (bad, False)):
+                st = v2x.copy_state(base)
+                ev = dict(build(n), type="Ev")
+                v2x.step(st, ev, [], n0)
+                got = any(e["type"] == "Marker" for e in st.outgoing_events)
+                res["many_unmentioned_cases"] += 1
+                if got != exp:
+                    res["violations"].append((f"many-unmentioned:{name}:{'prevent-the-match' if exp else 'matched'}",
+                                              f"`match Ev({pat})` fed the {'expected' if exp else 'a wrong'} value plus {n} unmentioned {name}: expected advance={exp}, got {got}",
+                                              {"engine": "C04-many", "source": src, "shape": name, "n": n, "good": exp}))
+    seen, uniq = set(), []
+    for v in res["violations"]:
+        if v[0] not in seen:
+            seen.add(v[0])
+            uniq.append(v)
+    res["violations"] = uniq
+    return res
+
+
 def run(rep, tier):
     from vf import par
 
@@ -800,6 +1155,46 @@ def run(rep, tier):
         steps += r["steps"]; markers += r["markers"]; progs += r["programs"]; der += r["derived"]
         for sig, what, rp in r["violations"]:
             rep.violation(sig, what, rp)
+    # ---- parts W / V: the ways a pattern can be written, and where a pattern variable got its value from
+    w_tasks = written_patterns(tier)
+    v_tasks = [(p, how) for p in patterns(1) for how in PROVENANCES]
+    for fam, fn, tasks_x in (("written_form", part_w_task, w_tasks), ("pattern_variable", part_v_task, v_tasks)):
+        f_steps = f_markers = f_progs = 0
+        by_sig = {}
+        for r in par.pmap(fn, tasks_x, chunksize=4):
+            f_steps += r["steps"]; f_markers += r["markers"]; f_progs += r["programs"]; der += r["derived"]
+            for sig, what, rp in r["violations"]:
+                # the shortest (then alphabetically first) failing case stands for its signature, whatever order the workers finish in
+                if sig not in by_sig or (len(what), what) < (len(by_sig[sig][0]), by_sig[sig][0]):
+                    by_sig[sig] = (what, rp)
+        # one report per signature (a defect of the evaluator shows in many programs), the first ten in a fixed order
+        for sig in sorted(by_sig)[:10]:
+            rep.violation(sig, by_sig[sig][0], by_sig[sig][1])
+        if len(by_sig) > 10:
+            rep.set(fam + "_signatures_not_listed", len(by_sig) - 10)
+        rep.set(fam + "_programs", f_progs)
+        rep.set(fam + "_steps", f_steps)
+        rep.set(fam + "_steps_expected_to_advance", f_markers)
+        steps += f_steps; markers += f_markers; progs += f_progs
+    rep.assumptions += [
+        "written forms: leaf forms " + ", ".join(f"{n} `{t}`" for n, t, _v in LEAF_FORMS) + " with " + ", ".join(f"${n} = {lit}" for n, lit in FORM_VARS)
+        + "; every leaf alone, lists/dicts of <=2, sets of 2, and ordered pairs one level deeper; the statement denotes the resolved value",
+        "pattern variables: every depth<=1 pattern reaching the statement through " + ", ".join(PROVENANCES) + "; also after two events that do not match",
+        f"interpolated text: {len(TEXTS)} texts (quotes, backslashes, braces, $word, control characters) taken from an event, written as {[n for n, _p, _b in TEXT_PATTERNS]}",
+        f"unmentioned elements / parameters added in numbers {LADDER}",
+    ]
+    tx = part_text(None)
+    for sig, what, rp in tx["violations"]:
+        rep.violation(sig, what, rp)
+    rep.set("interpolated_text_cases", tx["interpolated_text_cases"])
+    fr = part_flow_ref_events(None)
+    for sig, what, rp in fr["violations"]:
+        rep.violation(sig, what, rp)
+    rep.set("flow_reference_event_cases", fr["flow_reference_event_cases"])
+    mn = part_many(None)
+    for sig, what, rp in mn["violations"]:
+        rep.violation(sig, what, rp)
+    rep.set("many_unmentioned_cases", mn["many_unmentioned_cases"])
     rr = part_ref(None)
     for sig, what, rp in rr["violations"]:
         rep.violation(sig, what, rp)
@@ -843,7 +1238,8 @@ def run(rep, tier):
     rep.set("evaluations", tot["pairs"] * 2 + steps + rr["ref_cases"])
     rep.set("distinct_nontrivial", tot["ref_matches"] + markers)
     rep.set("rule", "all (pattern,payload) pairs of the bounded grammar at function level (with and without an unmentioned parameter) and, for depth<=1 patterns, "
-                    "through the parser+interpreter; non-trivial = pairs the reference expects to match (positive cases; every other pair is a negative case)")
+                    "through the parser+interpreter - also with every leaf written in each documented form and with the pattern reaching the statement through a variable of "
+                    "every listed provenance; non-trivial = pairs the reference expects to match (positive cases; every other pair is a negative case)")
     rep.set("exhaustive", True)
     rep.sample({"pattern": to_colang(pats[len(pats) // 2]), "payload": to_colang(vals[len(vals) // 3])})
     rep.sample({"program": program_for(pats_b[-1])})
@@ -857,6 +1253,28 @@ def replay(rp):
             args["q"] = "zzz"
         print("pattern", to_colang(p), "payload", to_colang(v), "reference:", ref_match(p, v),
               "implementation score:", sm._compute_arguments_dict_matching_score(args, {"p": to_py(p, True)}))
+    elif rp.get("engine") == "C04-many":
+        pat, good, bad = MANY_SHAPES[rp["shape"]]
+        st = v2x.init_state(rp["source"])
+        v2x.step(st, v2x.resolve_event(st, ("start_main",)), [], v2x.UIDS.n)
+        v2x.step(st, dict((good if rp["good"] else bad)(rp["n"]), type="Ev"), [], v2x.UIDS.n)
+        print(rp["source"], f"\nevent Ev with the {'expected' if rp['good'] else 'wrong'} value and {rp['n']} unmentioned {rp['shape']} ->", [e["type"] for e in st.outgoing_events])
+    elif rp.get("engine") == "C04-text":
+        st = v2x.init_state(rp["source"])
+        v2x.step(st, v2x.resolve_event(st, ("start_main",)), [], v2x.UIDS.n)
+        v2x.step(st, rp["first"], [], v2x.UIDS.n)
+        print(rp["source"], "\nevent", rp["first"], "->", [e["type"] for e in st.outgoing_events])
+        try:
+            v2x.step(st, rp["event"], [], v2x.UIDS.n)
+            print("event", rp["event"], "->", [e["type"] for e in st.outgoing_events])
+        except Exception as e:
+            print("event", rp["event"], "raised", repr(e))
+    elif rp.get("engine") == "C04-flowevent":
+        st = v2x.init_state(rp["source"])
+        v2x.step(st, v2x.resolve_event(st, ("start_main",)), [], v2x.UIDS.n)
+        print(rp["source"], "\nafter start ->", [e["type"] for e in st.outgoing_events])
+        v2x.step(st, {"type": "Go"}, [], v2x.UIDS.n)
+        print("event Go ->", [e["type"] for e in st.outgoing_events])
     elif rp.get("engine") == "C04-flowparam":
         st = v2x.init_state(rp["source"])
         v2x.step(st, v2x.resolve_event(st, ("start_main",)), [], v2x.UIDS.n)
@@ -867,6 +1285,10 @@ def replay(rp):
         st = v2x.init_state(rp["source"])
         v2x.step(st, v2x.resolve_event(st, ("start_main",)), [], v2x.UIDS.n)
         ev = rp["event"]
+        for nv in rp.get("noise") or []:
+            nev = {"type": "E", "p": to_py(_tup(nv), False)}
+            v2x.step(st, nev, [], v2x.UIDS.n)
+            print("event", nev, "->", [e["type"] for e in st.outgoing_events])
         if "p" in ev and isinstance(ev["p"], list):
             e = {"type": ev["type"], "p": to_py(_tup(ev["p"]), False)}
             if ev.get("extra"):
